@@ -27,7 +27,7 @@ def run(ctx) -> None:
     ctx.rule("d.untouched", "__setitem__ and _promote never store _name / _display_as_row; the vector keeps its length (C02.b)", 2)
     ctx.rule("e.accept-widen-reject", "per (column dtype, running target, value type): reject with SerifTypeError iff no promotion "
                                       "exists, else the value fits the widened target; None makes it nullable (exact, shared with C03.b)", 200)
-    ctx.rule("e.target-applied", "the widened dtype is applied (promotion with element conversion, nullability) before the store", 20)
+    ctx.rule("e.target-applied", "the widened dtype is applied (promotion with element conversion, nullability) before the store", 23)
     ctx.rule("f.table-delegation", "Table.__setitem__ resolves all target columns before any store and every store is "
                                    "self._underlying[idx][rows] = value (delegation to the column's own atomic write)", 4)
     ctx.rule("g.slice-length", "typeutils.slice_length takes start/stop/step from slice.indices(n) and clamps a closed-form length "
@@ -45,6 +45,8 @@ def run(ctx) -> None:
     ctx.section("table", _table, ctx)
     ctx.section("promote-order", _promote_order, ctx)
     ctx.section("accept-widen-reject", c03._setitem, ctx, "e.accept-widen-reject", "e.target-applied")
+    # (`promotes the whole column with existing elements converted`: the branches of _promote, shared with C03.b)
+    ctx.section("promote-branches", c03._promote, ctx, "e.target-applied")
     ctx.not_decided += ["equality with Python list assignment as values (index arithmetic of slice_length / range is numeric)"]
 
 
@@ -630,6 +632,41 @@ def _table(ctx) -> None:
     ctx.ob("f.table-delegation", f, "exact-name-first", not nm_problems and n_lookups >= 1,
            f"{n_lookups} accessor-map lookups, each after the exact stored-name search", f.node, message="; ".join(nm_problems[:2]))
     # value forms: a same-length sequence given as a VECTOR reaches the column's own assignment too (not only list / tuple)
+    def item_alts(t):
+        """A list built item by item from ONE source sequence - a comprehension `[f(v) for v in src]`, or an empty list filled by
+        `.append(f(v))` calls in a `for v in src` loop: (src, item term, [(what is stored for the item, the conditions that select
+        it)]); None for anything else."""
+        if t[0] != "obj":
+            return None
+        o = it.objs[t[1]]
+        from ..sites2 import leaves_with_conds as _lw
+        if o.kind == "listcomp":
+            evs = [e for e in it.events if e.kind == "elem" and e.term == t]
+            if len(evs) != 1 or not evs[0].loops:
+                return None
+            L = [x for x in evs[0].loops if x not in o.loops]
+            if len(L) != 1:
+                return None
+            src = it.loops[L[0]].iter
+            return src, ("elem", src, L[0]), list(_lw(evs[0].value)), evs[0]
+        if o.kind == "list" and not o.init and not isinstance(o.node, ast.Call):
+            from ..symx import elements as _els
+            evs = _els(it, t)
+            if not evs or any(not (e.kind == "call" and e.term[1][2] == "append" and len(e.term[2]) == 1) for e in evs):
+                return None
+            Ls = {tuple(x for x in e.loops if x not in o.loops) for e in evs}
+            if len(Ls) != 1 or len(next(iter(Ls))) != 1:
+                return None
+            L = next(iter(Ls))[0]
+            src = it.loops[L].iter
+            alts = []
+            for e in evs:
+                own = tuple(flatten_conds(tuple(e.conds[len(o.conds):])))
+                for v, cs in _lw(e.term[2][0]):
+                    alts.append((v, own + tuple(cs)))
+            return src, ("elem", src, L), alts, evs[0]
+        return None
+
     def is_value(t) -> bool:
         """the assigned value, possibly snapshotted: value / value.copy() / list(value) / [v.copy() if ... else v for v in value]"""
         if t == VALUE:
@@ -642,22 +679,18 @@ def _table(ctx) -> None:
             return is_value(t[2][0])
         if t[0] == "obj" and it.objs[t[1]].kind == "list" and isinstance(it.objs[t[1]].node, ast.Call) and len(it.objs[t[1]].init) == 1:
             return is_value(it.objs[t[1]].init[0])
-        if t[0] == "obj" and it.objs[t[1]].kind == "listcomp":
-            evs = [e for e in it.events if e.kind == "elem" and e.term == t]
-            if len(evs) == 1 and len(evs[0].loops) >= 1:
-                L = [x for x in evs[0].loops if x not in it.objs[t[1]].loops]
-                if len(L) == 1 and is_value(it.loops[L[0]].iter):
-                    x = ("elem", it.loops[L[0]].iter, L[0])
-                    from ..sites2 import leaves as _lv
+        ia = item_alts(t)
+        if ia is not None and is_value(ia[0]):
+            x = ia[1]
 
-                    def item_ok(v):
-                        """the item itself, its copy, or - a one-shot iterator among the items - the list of what it yields"""
-                        if v == x or v == ("call", ("attr", x, "copy"), (), ()):
-                            return True
-                        if v[0] == "call" and v[1] in (("name", "list"), ("name", "tuple")) and v[2] == (x,) and not v[3]:
-                            return True
-                        return v[0] == "obj" and it.objs[v[1]].kind == "list" and isinstance(it.objs[v[1]].node, ast.Call) and it.objs[v[1]].init == (x,)
-                    return all(item_ok(v) for v in _lv(evs[0].value))
+            def item_ok(v):
+                """the item itself, its copy, or - a one-shot iterator among the items - the list of what it yields"""
+                if v == x or v == ("call", ("attr", x, "copy"), (), ()):
+                    return True
+                if v[0] == "call" and v[1] in (("name", "list"), ("name", "tuple")) and v[2] == (x,) and not v[3]:
+                    return True
+                return v[0] == "obj" and it.objs[v[1]].kind == "list" and isinstance(it.objs[v[1]].node, ast.Call) and it.objs[v[1]].init == (x,)
+            return all(item_ok(v) for v, _ in ia[2])
         return False
     # unsupported values raise
     fin = [e for e in it.events if e.kind == "raise" and e.term[0] == "call" and e.term[1] == ("name", "SerifTypeError")
@@ -696,7 +729,7 @@ def _table(ctx) -> None:
     # columns - reversed([t.a, t.b]), a generator, map), the sequence whose items are written column after column must hold copies
     # of the vectors in it, not the (possibly live) vectors themselves
     def kval(t, K, depth=0):
-        if depth > 12:
+        if depth > 60:
             return None
         if t == VALUE:
             return ("raw", K)
@@ -718,17 +751,14 @@ def _table(ctx) -> None:
             if kv == "list-snap":
                 return kv
             return "list-shared" if kv is not None and (kv == "list-shared" or kv[0] == "raw") else None
-        if t[0] == "obj" and it.objs[t[1]].kind == "listcomp":
-            evs = [e for e in it.events if e.kind == "elem" and e.term == t]
-            if len(evs) == 1 and evs[0].loops:
-                L = [x for x in evs[0].loops if x not in it.objs[t[1]].loops]
-                if len(L) == 1:
-                    src = it.loops[L[0]].iter
+        ia = item_alts(t)
+        if ia is not None:
+            if True:
+                if True:
+                    src, x = ia[0], ia[1]
                     kv = kval(src, K, depth + 1)
-                    x = ("elem", src, L[0])
-                    from ..sites2 import leaves_with_conds as _lwc
                     copies = True
-                    for v, cs in _lwc(evs[0].value):
+                    for v, cs in ia[2]:
                         if v == ("call", ("attr", x, "copy"), (), ()):
                             continue
                         # the item itself: only where it is known not to be a vector
@@ -839,22 +869,17 @@ def _table(ctx) -> None:
     raw_iter_items = []
     n_snap = 0
     for o_id, o in it.objs.items():
-        if o.kind != "listcomp":
+        ia_ = item_alts(("obj", o_id))
+        if ia_ is None or not is_value(ia_[0]):
             continue
-        evs_ = [e for e in it.events if e.kind == "elem" and e.term == ("obj", o_id)]
-        if len(evs_) != 1 or not evs_[0].loops:
-            continue
-        L_ = [x for x in evs_[0].loops if x not in o.loops]
-        if len(L_) != 1 or not is_value(it.loops[L_[0]].iter):
-            continue
-        x_ = ("elem", it.loops[L_[0]].iter, L_[0])
-        if not any(v == ("call", ("attr", x_, "copy"), (), ()) for v, _ in _lwc2(evs_[0].value)):
-            continue                                   # (not the snapshot comprehension)
+        x_ = ia_[1]
+        if not any(v == ("call", ("attr", x_, "copy"), (), ()) for v, _ in ia_[2]):
+            continue                                   # (not the snapshot of the items)
         n_snap += 1
-        for v, cs in _lwc2(evs_[0].value):
+        for v, cs in ia_[2]:
             if v == x_ and not any((not pol) and c[0] == "call" and c[1] == ("name", "isinstance") and c[2][0] == x_
                                    and any(y == ("name", "Iterator") for y in subterms(c[2][1])) for c, pol in cs):
-                raw_iter_items.append(evs_[0])
+                raw_iter_items.append(ia_[3])
     if rehearsal is not None:
         ctx.ob("f.table-delegation", f, "iterator-items-materialised", n_snap >= 1 and not raw_iter_items,
                "a one-shot iterator among the items of a list / tuple value is materialised with the snapshot (the value is read twice)",
